@@ -3,6 +3,8 @@ import DryocVerif.Model.CurveInst
 import DryocVerif.Spec.X25519
 import DryocVerif.Spec.Ed25519
 import DryocVerif.Proofs.Curve
+import DryocVerif.Proofs.CurveExtra
+import DryocVerif.Proofs.CurveOrder8
 import DryocVerif.Proofs.GenCurve
 /-
 C05 — Curve25519 scalar multiplication and the key exchange built on it.
@@ -18,7 +20,21 @@ What is proved about dryoc's own code (`Model.Curve`, mirroring
   the reduction changes *every* clamped scalar (`clamped_scalar_ge_L`) and the result
   differs from X25519 outside the prime-order subgroup (concrete witnesses);
 * `crypto_kx_*_session_keys` refuse exactly the all-zero shared secret, never panic, and
-  the two sides derive mirrored keys whenever the two Diffie–Hellman results agree.
+  the two sides derive mirrored keys whenever the two Diffie–Hellman results agree;
+* the ladder sees the u-coordinate only modulo p and ignores bit 255 (theorems, for every scalar
+  and every encoding: `ladder_mod_p`, `scalarmult_noncanonical`, `scalarmult_high_bit`);
+* ALL small-order peer keys — u ≡ 0, 1, −1 and the two u-coordinates of order 8 (mod p), in any of
+  their encodings — give the all-zero shared secret for EVERY 32-byte secret key and are refused by
+  `crypto_kx` (`scalarmult_small_order`, `kx_refuses_low_order`): nothing of the small-order table
+  remains merely enumerated.
+
+NOT proved, and made explicit as named hypotheses (`BaseReduceOK`, `BaseEdwardsOK`): the model's
+`scalarmultBase` is the Montgomery ladder on the clamped scalar, whereas the Rust
+`crypto_scalarmult_curve25519_base` multiplies the Edwards base-point table by the clamped scalar
+reduced mod L and maps the result to Montgomery form.  That the two agree is a fact about the curve
+(`[L]B = O` and the birational map being a homomorphism); it is checked differentially and on
+instances, not proved.  Every theorem below whose statement mentions `scalarmultBase` is a theorem
+about the model's shape and transfers to the Rust function only under `BaseEdwardsOK`.
 -/
 namespace DryocVerif.Properties.C05
 open DryocVerif DryocVerif.Model.Curve
@@ -78,6 +94,11 @@ theorem scalarmult_eq_x25519 (n p : Bytes) (h : n.length = 32) :
     scalarmult specPrims n p = Spec.X25519.x25519 n p := by
   simp only [scalarmult, specPrims, rawLadder, Spec.X25519.x25519, decodeScalar_eq n h]
 
+/-- The MODEL's `scalarmultBase` (ladder on the clamped scalar and u = 9) is RFC 7748's
+X25519 on the base point.  NB the Rust `crypto_scalarmult_curve25519_base` does not have this
+shape (it is `to_montgomery(ED25519_BASEPOINT_TABLE * (clamp n mod L))`): this theorem speaks
+about the Rust function only under the hypothesis `BaseEdwardsOK` below
+(`scalarmultBase_code_shape`). -/
 theorem scalarmultBase_eq (n : Bytes) (h : n.length = 32) :
     scalarmultBase specPrims n = Spec.X25519.x25519Base n := by
   simp only [scalarmultBase, specPrims, rawLadder, Spec.X25519.x25519Base, Spec.X25519.x25519,
@@ -90,10 +111,15 @@ theorem scalarmult_eq_x25519_of_le (n p : Bytes) (h : n.length ≤ 32) :
   simp only [scalarmult, specPrims, rawLadder, Spec.X25519.x25519,
     Spec.X25519.decodeScalar25519, clamp_eq_spec_of_le n h]
 
+/-- as `scalarmultBase_eq`, for scalars of at most 32 bytes; about the model's shape, transfers to
+the Rust function only under `BaseEdwardsOK` -/
 theorem scalarmultBase_eq_of_le (n : Bytes) (h : n.length ≤ 32) :
     scalarmultBase specPrims n = Spec.X25519.x25519Base n :=
   scalarmult_eq_x25519_of_le n Spec.X25519.basePoint h
 
+/-- in the MODEL the base-point multiplication is the general one applied to `P.base`.  (In the
+Rust the two functions are different code paths — Edwards table vs. `mul_clamped` —; their
+agreement on u = 9 is `BaseEdwardsOK`.) -/
 theorem scalarmultBase_eq_scalarmult (P : Prims) (n : Bytes) :
     scalarmultBase P n = scalarmult P n P.base := rfl
 
@@ -199,8 +225,9 @@ theorem kx_never_panics (P : Prims) (a b c : Bytes) :
   · by_cases h : scalarmult P b c = zeros 32 <;> simp [kxClient, h]
   · by_cases h : scalarmult P b c = zeros 32 <;> simp [kxServer, h]
 
-/-- with the spec instantiation: a low-order peer key (u = 1, order 4) is refused by both sides -/
-theorem kx_refuses_low_order (pk : Bytes) :
+/-- EXAMPLE (one secret key, kernel evaluation): the peer key u = 1 (order 4) is refused by both
+sides for the secret key 0³².  The statement for ALL secret keys is `kx_refuses_low_order` below. -/
+example (pk : Bytes) :
     kxClient specPrims pk (zeros 32) (1 :: zeros 31) = .err ∧
     kxServer specPrims pk (zeros 32) (1 :: zeros 31) = .err := by
   have h : scalarmult specPrims (zeros 32) (1 :: zeros 31) = zeros 32 := by
@@ -287,7 +314,301 @@ theorem kx_refuses_zero_point (pk sk u : Bytes) (hu : u ∈ zeroPointEncodings) 
   ⟨kx_refuses_zero _ _ _ _ (scalarmult_zero_point sk u (zeroPoint_decode u hu)),
    kx_refuses_zero_server _ _ _ _ (scalarmult_zero_point sk u (zeroPoint_decode u hu))⟩
 
+/-- the same with the hypothesis on the decoded value (covers, besides the two encodings of
+`zeroPointEncodings`, their variants with the ignored bit 255 set) -/
+theorem kx_refuses_zero_point' (pk sk u : Bytes)
+    (hu : Spec.X25519.decodeUCoordinate u = 0 ∨ Spec.X25519.decodeUCoordinate u = Spec.X25519.p) :
+    kxClient specPrims pk sk u = .err ∧ kxServer specPrims pk sk u = .err :=
+  ⟨kx_refuses_zero _ _ _ _ (scalarmult_zero_point sk u hu),
+   kx_refuses_zero_server _ _ _ _ (scalarmult_zero_point sk u hu)⟩
+
+/-! ### 8: the ladder sees u only modulo p, and bit 255 of the encoding not at all -/
+
+/-- Every field operation of the RFC 7748 ladder reduces modulo p, so the result only depends on
+the u-coordinate modulo p — for every scalar. -/
+theorem ladder_mod_p (k u : Nat) :
+    Spec.X25519.ladder k (u % Spec.X25519.p) = Spec.X25519.ladder k u :=
+  Proofs.CurveExtra.ladder_mod_p k u
+
+/-- `u` and `u + p` (a non-canonical representative) give the same result for every scalar -/
+theorem ladder_add_p (k u : Nat) :
+    Spec.X25519.ladder k (u + Spec.X25519.p) = Spec.X25519.ladder k u :=
+  Proofs.CurveExtra.ladder_add_p k u
+
+/-- Non-canonical public keys: two encodings whose decoded u-coordinates are congruent modulo p
+(e.g. `u` and `u + p`, both below 2^255) give the same `crypto_scalarmult` output for EVERY secret
+key.  This turns the enumerated "non-canonical u" test rows into a theorem about the model. -/
+theorem scalarmult_noncanonical (n u u' : Bytes)
+    (h : Spec.X25519.decodeUCoordinate u % Spec.X25519.p =
+         Spec.X25519.decodeUCoordinate u' % Spec.X25519.p) :
+    scalarmult specPrims n u = scalarmult specPrims n u' := by
+  simp only [scalarmult, specPrims, rawLadder, Proofs.CurveExtra.ladder_congr _ _ _ h]
+
+/-- non-vacuity witness for `scalarmult_noncanonical`: u = 2 and its second encoding p + 2 -/
+example :
+    Spec.X25519.decodeUCoordinate (2 :: zeros 31) % Spec.X25519.p =
+      Spec.X25519.decodeUCoordinate (0xef :: (List.replicate 30 0xff ++ [0x7f])) % Spec.X25519.p ∧
+    (2 :: zeros 31 : Bytes) ≠ 0xef :: (List.replicate 30 0xff ++ [0x7f]) := by decide
+
+/-- Bit 255 of the public key is ignored (RFC 7748 `decodeUCoordinate` masks it): setting it
+changes nothing, for every secret key and every public key (of any length). -/
+theorem scalarmult_high_bit (n u : Bytes) :
+    scalarmult specPrims n (u.modify 31 (· ||| 128)) = scalarmult specPrims n u := by
+  simp only [scalarmult, specPrims, rawLadder, Proofs.CurveExtra.decodeU_high_bit]
+
+/-- the same in the form "bit 255 set" on a 32-byte key written as `init ++ [last]` -/
+theorem scalarmult_high_bit' (n init : Bytes) (last : UInt8) (hi : init.length = 31) :
+    scalarmult specPrims n (init ++ [last ||| 128]) = scalarmult specPrims n (init ++ [last]) := by
+  have : (init ++ [last]).modify 31 (· ||| 128) = init ++ [last ||| 128] := by
+    rw [List.modify_eq_take_drop, List.take_append_of_le_length (by omega),
+      List.take_of_length_le (by omega), List.drop_append_of_le_length (by omega),
+      List.drop_of_length_le (by omega)]
+    rfl
+  rw [← this, scalarmult_high_bit]
+
+/-- instance: the base point 9 with bit 255 set is still the base point -/
+example (n : Bytes) :
+    scalarmult specPrims n (9 :: zeros 30 ++ [0x80]) = scalarmult specPrims n (9 :: zeros 31) :=
+  scalarmult_high_bit' n (9 :: zeros 30) 0 (by decide)
+
+/-! ### 9: the small-order points — for every secret key
+
+The u-coordinates of small order on Curve25519 and its twist are 0 (order 2), 1 and p − 1
+(order 4) and two values `c1`, `c2` of order 8; each has a second encoding `+ p` when that is below
+2^255, and each encoding a variant with bit 255 set.  For all of them the all-zero result is proved
+for every scalar divisible by 8 — hence for every clamped scalar — by loop invariants of the ladder:
+`Proofs/CurveExtra.lean` (orders 1, 2, 4: both projective registers stay in the classes `O` (z = 0),
+`2P` (x = 0), `±P` (x = ±z); this needs only an even scalar) and `Proofs/CurveOrder8.lean` (order 8:
+the pair of registers stays in one of four pair types; computed in `ZMod p`). -/
+
+/-- X25519 ladder on the order-4 point u = 1: 0 for every even scalar -/
+theorem ladder_one (k : Nat) (hk : k % 2 = 0) : Spec.X25519.ladder k 1 = 0 :=
+  Proofs.CurveExtra.ladder_one_even k hk
+
+/-- X25519 ladder on the order-4 point u = p − 1: 0 for every even scalar -/
+theorem ladder_pm1 (k : Nat) (hk : k % 2 = 0) :
+    Spec.X25519.ladder k (Spec.X25519.p - 1) = 0 :=
+  Proofs.CurveExtra.ladder_pm1_even k hk
+
+/-- evenness is needed: an odd scalar maps u = 1 to itself -/
+example : Spec.X25519.ladder 1 1 = 1 ∧ Spec.X25519.ladder 3 1 = 1 := by
+  set_option maxRecDepth 100000 in decide
+
+/-- the two u-coordinates of order 8 -/
+abbrev c1 : Nat := Proofs.CurveOrder8.c1
+abbrev c2 : Nat := Proofs.CurveOrder8.c2
+
+/-- X25519 ladder on an order-8 point: 0 for every scalar divisible by 8 -/
+theorem ladder_order8 (k : Nat) (hk : k % 8 = 0) :
+    Spec.X25519.ladder k c1 = 0 ∧ Spec.X25519.ladder k c2 = 0 :=
+  ⟨Proofs.CurveOrder8.ladder_c1 k hk, Proofs.CurveOrder8.ladder_c2 k hk⟩
+
+/-- divisibility by 8 is needed: the scalar 4 maps `c1` to the order-2 point… which also encodes
+as 0; the scalar 2 maps it to the order-4 point u = 1 -/
+example : Spec.X25519.ladder 2 c1 = 1 := by
+  set_option maxRecDepth 100000 in decide
+
+/-- a u-coordinate of small order: u ≡ 0, 1, −1, c1 or c2 modulo p -/
+def SmallOrder (u : Nat) : Prop :=
+  u % Spec.X25519.p = 0 ∨ u % Spec.X25519.p = 1 ∨ u % Spec.X25519.p = Spec.X25519.p - 1 ∨
+  u % Spec.X25519.p = c1 ∨ u % Spec.X25519.p = c2
+
+/-- a u-coordinate of order 1, 2 or 4 (for these an even scalar suffices) -/
+def LowOrder4 (u : Nat) : Prop :=
+  u % Spec.X25519.p = 0 ∨ u % Spec.X25519.p = 1 ∨ u % Spec.X25519.p = Spec.X25519.p - 1
+
+/-- libsodium's X25519 blacklist: the seven 32-byte encodings (bit 255 clear) of small-order
+u-coordinates: 0, 1, c1, c2, p − 1, p, p + 1 -/
+def smallOrderEncodings : List Bytes :=
+  [zeros 32, 1 :: zeros 31,
+   [0xe0, 0xeb, 0x7a, 0x7c, 0x3b, 0x41, 0xb8, 0xae, 0x16, 0x56, 0xe3, 0xfa, 0xf1, 0x9f, 0xc4, 0x6a,
+    0xda, 0x09, 0x8d, 0xeb, 0x9c, 0x32, 0xb1, 0xfd, 0x86, 0x62, 0x05, 0x16, 0x5f, 0x49, 0xb8, 0x00],
+   [0x5f, 0x9c, 0x95, 0xbc, 0xa3, 0x50, 0x8c, 0x24, 0xb1, 0xd0, 0xb1, 0x55, 0x9c, 0x83, 0xef, 0x5b,
+    0x04, 0x44, 0x5c, 0xc4, 0x58, 0x1c, 0x8e, 0x86, 0xd8, 0x22, 0x4e, 0xdd, 0xd0, 0x9f, 0x11, 0x57],
+   0xec :: (List.replicate 30 0xff ++ [0x7f]),
+   0xed :: (List.replicate 30 0xff ++ [0x7f]),
+   0xee :: (List.replicate 30 0xff ++ [0x7f])]
+
+theorem smallOrder_decode : ∀ u ∈ smallOrderEncodings, SmallOrder (Spec.X25519.decodeUCoordinate u) := by
+  unfold SmallOrder; decide
+
+/-- … and the same seven with bit 255 set -/
+theorem smallOrder_decode_high : ∀ u ∈ smallOrderEncodings,
+    SmallOrder (Spec.X25519.decodeUCoordinate (u.modify 31 (· ||| 128))) := by
+  intro u hu; rw [Proofs.CurveExtra.decodeU_high_bit]; exact smallOrder_decode u hu
+
+/-- the ladder on a small-order u-coordinate is 0 for every scalar divisible by 8 -/
+theorem ladder_small_order (k u : Nat) (hk : k % 8 = 0) (hu : SmallOrder u) :
+    Spec.X25519.ladder k u = 0 :=
+  Proofs.CurveOrder8.ladder_small_order k u hk hu
+
+/-- `crypto_scalarmult` of a small-order point (any encoding) is all-zero for EVERY 32-byte secret
+key: the clamped scalar is a multiple of 8. -/
+theorem scalarmult_small_order (n u : Bytes) (hn : n.length = 32)
+    (hu : SmallOrder (Spec.X25519.decodeUCoordinate u)) :
+    scalarmult specPrims n u = zeros 32 := by
+  have hk : le (clamp n) % 8 = 0 := by
+    have := (clamp_range n hn).2.2; omega
+  have : Spec.X25519.ladder (le (clamp n)) (Spec.X25519.decodeUCoordinate u) = 0 :=
+    ladder_small_order _ _ hk hu
+  simp only [scalarmult, specPrims, rawLadder, this]; decide
+
+/-- the special case of orders 1, 2, 4 -/
+theorem scalarmult_low_order (n u : Bytes) (hn : n.length = 32)
+    (hu : LowOrder4 (Spec.X25519.decodeUCoordinate u)) :
+    scalarmult specPrims n u = zeros 32 :=
+  scalarmult_small_order n u hn (by
+    rcases hu with h | h | h
+    · exact Or.inl h
+    · exact Or.inr (Or.inl h)
+    · exact Or.inr (Or.inr (Or.inl h)))
+
+/-- … hence `crypto_kx_client_session_keys` / `crypto_kx_server_session_keys` refuse every
+small-order peer key (orders 1, 2, 4 and 8), in any encoding, for EVERY 32-byte secret key. -/
+theorem kx_refuses_low_order (pk sk u : Bytes) (hsk : sk.length = 32)
+    (hu : SmallOrder (Spec.X25519.decodeUCoordinate u)) :
+    kxClient specPrims pk sk u = .err ∧ kxServer specPrims pk sk u = .err :=
+  ⟨kx_refuses_zero _ _ _ _ (scalarmult_small_order sk u hsk hu),
+   kx_refuses_zero_server _ _ _ _ (scalarmult_small_order sk u hsk hu)⟩
+
+/-- in list form: the seven blacklisted encodings and their seven bit-255 variants -/
+theorem kx_refuses_blacklist (pk sk u : Bytes) (hsk : sk.length = 32) (hu : u ∈ smallOrderEncodings) :
+    (kxClient specPrims pk sk u = .err ∧ kxServer specPrims pk sk u = .err) ∧
+    (kxClient specPrims pk sk (u.modify 31 (· ||| 128)) = .err ∧
+     kxServer specPrims pk sk (u.modify 31 (· ||| 128)) = .err) :=
+  ⟨kx_refuses_low_order pk sk u hsk (smallOrder_decode u hu),
+   kx_refuses_low_order pk sk _ hsk (smallOrder_decode_high u hu)⟩
+
+/-- non-vacuity witness: the encoding of p − 1 with bit 255 set -/
+example (pk sk : Bytes) (hsk : sk.length = 32) :
+    kxClient specPrims pk sk (0xec :: (List.replicate 30 0xff ++ [0xff])) = .err := by
+  have e : (0xec :: (List.replicate 30 0xff ++ [0x7f]) : Bytes).modify 31 (· ||| 128) =
+      0xec :: (List.replicate 30 0xff ++ [0xff]) := by decide
+  have h := smallOrder_decode_high (0xec :: (List.replicate 30 0xff ++ [0x7f])) (by decide)
+  rw [e] at h
+  exact (kx_refuses_low_order pk sk _ hsk h).1
+
+/-- cross-check of the two order-8 theorems against kernel evaluation for the secret key 0³² -/
+example : ∀ u ∈ smallOrderEncodings, scalarmult specPrims (zeros 32) u = zeros 32 := by
+  set_option maxRecDepth 100000 in decide
+
+/-! ### 10: the base-point multiplication of the Rust code has a different shape -/
+
+/-- `crypto_scalarmult_curve25519_base` as written in scalarmult_curve25519.rs:
+`sk = Scalar::from_bytes_mod_order(clamp(n))`, `(ED25519_BASEPOINT_TABLE * &sk).to_montgomery()`,
+i.e. the Edwards base point times the clamped scalar reduced mod L, then dalek's
+`to_montgomery`: u = (Z + Y) / (Z − Y).  (Edwards arithmetic from `Spec.Ed25519`, standing for
+dalek's.) -/
+def scalarmultBaseEdwards (n : Bytes) : Bytes :=
+  let P := Spec.Ed25519.scalarMul (le (clamp n) % L) Spec.Ed25519.B
+  toLE 32 (Spec.X25519.fmul (Spec.X25519.fadd P.Z P.Y)
+    (Spec.X25519.finv (Spec.X25519.fsub P.Z P.Y)))
+
+/-- **Unproved curve fact, Edwards form**: the Rust base-point multiplication equals X25519 on
+u = 9.  It combines `[L]B = O` with the birational map Edwards → Montgomery commuting with
+scalar multiplication.  Not provable without the group law; evaluated on instances below and
+compared with the implementation in the differential tests (`box_keypair`, `kx_keypair`, seed
+key pairs).  Dependants: every statement that identifies the Rust
+`crypto_scalarmult_curve25519_base` with the model's `scalarmultBase` — i.e. the transfer of
+`scalarmultBase_eq`, `scalarmultBase_eq_of_le`, `scalarmultBase_eq_scalarmult`, and in C13
+`boxSeedKeypair_spec`, `kxSeedKeypair_spec`, `boxSeedKeypair_pk`, `kxSeedKeypair_pk`,
+`converted_pair_consistent`, `fromSecretKey_*`, `deriveKeypair_*` to the Rust code. -/
+def BaseEdwardsOK : Prop :=
+  ∀ n : Bytes, n.length = 32 → scalarmultBaseEdwards n = Spec.X25519.x25519Base n
+
+/-- **Unproved curve fact, ladder form**: on the base point, reducing the clamped scalar mod L
+before the ladder (the shape `ladder (le (clamp n) % L) 9` of the code's `from_bytes_mod_order`)
+does not change the result, i.e. `[L]·9 = O` on the Montgomery curve.  (Off the prime-order
+subgroup it does: `scalarmultReduced_ne_x25519`.) -/
+def BaseReduceOK : Prop :=
+  ∀ n : Bytes, n.length = 32 →
+    scalarmultReduced specPrims n Spec.X25519.basePoint = Spec.X25519.x25519Base n
+
+/-- what `scalarmultReduced` on the base point is, in terms of the ladder -/
+theorem scalarmultReduced_base (n : Bytes) :
+    scalarmultReduced specPrims n Spec.X25519.basePoint =
+      Spec.X25519.encodeUCoordinate (Spec.X25519.ladder (le (clamp n) % L) 9) := by
+  have h9 : Spec.X25519.decodeUCoordinate Spec.X25519.basePoint = 9 := by decide
+  have hlt : le (clamp n) % L < 256 ^ 32 :=
+    Nat.lt_trans (Nat.mod_lt _ (by decide)) (by decide)
+  simp only [scalarmultReduced, specPrims, rawLadder, h9, Proofs.Curve.le_toLE,
+    Nat.mod_eq_of_lt hlt]
+
+/-- Under `BaseEdwardsOK` the code-shaped function is the model's `scalarmultBase` on every
+32-byte secret key — this is the hypothesis under which the `scalarmultBase_*` theorems speak
+about the Rust function. -/
+theorem scalarmultBase_code_shape (h : BaseEdwardsOK) (n : Bytes) (hn : n.length = 32) :
+    scalarmultBaseEdwards n = scalarmultBase specPrims n := by
+  rw [h n hn, scalarmultBase_eq n hn]
+
+/-- likewise for the ladder form -/
+theorem scalarmultBase_reduced_shape (h : BaseReduceOK) (n : Bytes) (hn : n.length = 32) :
+    scalarmultReduced specPrims n Spec.X25519.basePoint = scalarmultBase specPrims n := by
+  rw [h n hn, scalarmultBase_eq n hn]
+
+/-- instances of the two hypotheses (kernel evaluation): secret keys 0³² and 0xff³² -/
+example : scalarmultBaseEdwards (zeros 32) = Spec.X25519.x25519Base (zeros 32) := by
+  set_option maxRecDepth 1000000 in decide
+
+example : scalarmultBaseEdwards (List.replicate 32 0xff) =
+    Spec.X25519.x25519Base (List.replicate 32 0xff) := by
+  set_option maxRecDepth 1000000 in decide
+
+example : scalarmultReduced specPrims (List.replicate 32 0xff) Spec.X25519.basePoint =
+    Spec.X25519.x25519Base (List.replicate 32 0xff) := by
+  set_option maxRecDepth 100000 in decide
+
 /-! ### non-vacuity -/
+
+/-- witness for `kx_mirror'`: with the secret keys 0³² and 8 ‖ 0³¹ and the matching public keys
+both sides succeed, and the results are mirrored (hypothesis `hdh` by kernel evaluation of the
+four ladders; no hash is evaluated) -/
+example :
+    let csk := zeros 32
+    let ssk := 8 :: zeros 31
+    let cpk := scalarmultBase specPrims csk
+    let spk := scalarmultBase specPrims ssk
+    ∃ c s, kxClient specPrims cpk csk spk = .ok c ∧ kxServer specPrims spk ssk cpk = .ok s ∧
+      c.1 = s.2 ∧ c.2 = s.1 := by
+  intro csk ssk cpk spk
+  have h : scalarmult specPrims csk spk = scalarmult specPrims ssk cpk ∧
+      scalarmult specPrims csk spk ≠ zeros 32 := by
+    set_option maxRecDepth 100000 in decide
+  refine ⟨_, _, kxClient_ok _ _ _ _ h.2, kxServer_ok _ _ _ _ (h.1 ▸ h.2), ?_⟩
+  exact kx_mirror' specPrims cpk csk spk ssk h.1 _ _ (kxClient_ok _ _ _ _ h.2)
+    (kxServer_ok _ _ _ _ (h.1 ▸ h.2))
+
+/-- witness for `kx_err_together`, failing side: both public keys of low order (u = 1 and u = 0),
+arbitrary 32-byte secret keys: `hdh` holds (both Diffie–Hellman results are 0³²) and both fail -/
+example (csk ssk : Bytes) (hc : csk.length = 32) :
+    scalarmult specPrims csk (1 :: zeros 31) = scalarmult specPrims ssk (zeros 32) ∧
+    kxClient specPrims (zeros 32) csk (1 :: zeros 31) = .err ∧
+    kxServer specPrims (1 :: zeros 31) ssk (zeros 32) = .err := by
+  have h1 : scalarmult specPrims csk (1 :: zeros 31) = zeros 32 :=
+    scalarmult_small_order csk _ hc (smallOrder_decode _ (by decide))
+  have h2 : scalarmult specPrims ssk (zeros 32) = zeros 32 :=
+    scalarmult_zero_point ssk _ (Or.inl (by decide))
+  have hdh := h1.trans h2.symm
+  have := kx_err_together specPrims (zeros 32) csk (1 :: zeros 31) ssk hdh
+  exact ⟨hdh, kx_refuses_zero _ _ _ _ h1, this.1 (kx_refuses_zero _ _ _ _ h1)⟩
+
+/-- witnesses for `scalarmult_zero_point` / `kx_refuses_zero_point'`: the encoding of u = 0 with
+bit 255 set, and the encoding of u = p with bit 255 set -/
+example (pk sk : Bytes) :
+    scalarmult specPrims sk (zeros 31 ++ [0x80]) = zeros 32 ∧
+    scalarmult specPrims sk (0xed :: (List.replicate 30 0xff ++ [0xff])) = zeros 32 ∧
+    kxClient specPrims pk sk (zeros 31 ++ [0x80]) = .err ∧
+    kxServer specPrims pk sk (zeros 31 ++ [0x80]) = .err ∧
+    kxClient specPrims pk sk (0xed :: (List.replicate 30 0xff ++ [0xff])) = .err :=
+  ⟨scalarmult_zero_point sk _ (Or.inl (by decide)),
+   scalarmult_zero_point sk _ (Or.inr (by decide)),
+   (kx_refuses_zero_point' pk sk _ (Or.inl (by decide))).1,
+   (kx_refuses_zero_point' pk sk _ (Or.inl (by decide))).2,
+   (kx_refuses_zero_point' pk sk _ (Or.inr (by decide))).1⟩
+
+/-- witness for `kx_refuses_zero_point` (list form) -/
+example (pk sk : Bytes) : kxClient specPrims pk sk (zeros 32) = .err :=
+  (kx_refuses_zero_point pk sk _ (by decide)).1
 
 /-- `clamp_range` on the all-ones scalar -/
 example : le (clamp (List.replicate 32 255)) = 2 ^ 255 - 8 := by decide
@@ -314,8 +635,12 @@ example :
     scalarmult specPrims csk spk ≠ zeros 32 := by
   set_option maxRecDepth 100000 in decide
 
-/-- tie to the source: `scalarmult_curve25519.rs::clamp` as translated by `tools/rs2lean.py` (regenerated on every run)
-= the model's clamp on every 32-byte scalar (indeed on every scalar of at most 32 bytes) -/
+/-- tie to the source: `scalarmult_curve25519.rs::clamp` as translated by `tools/rs2lean.py`
+(regenerated on every run) = the model's clamp on every 32-byte scalar (indeed on every scalar of at
+most 32 bytes).  In the Rust this `clamp` is called by `crypto_scalarmult_curve25519_base` ONLY;
+`crypto_scalarmult_curve25519` hands the unclamped scalar to curve25519-dalek's
+`MontgomeryPoint::mul_clamped`, whose clamping is dalek's code (compared differentially, and equal
+to RFC 7748's by `clamp_eq_spec`). -/
 theorem translated_clamp (n : Bytes) (hn : n.length = 32) : Gen.Curve.clamp n = Model.Curve.clamp n :=
   Proofs.GenCurve.clamp_eq_model n hn
 
